@@ -79,7 +79,15 @@ def main(argv=None):
     ap.add_argument("--no-shrink", action="store_true")
     args = ap.parse_args(argv)
     prop = args.prop.upper()
-    seed = args.seed if args.seed is not None else int(os.environ.get("VERIF_SEED", "1") or 1)
+    if args.seed is not None:
+        seed = args.seed
+    else:
+        raw = (os.environ.get("VERIF_SEED", "1") or "1").strip()
+        try:
+            seed = int(raw)
+        except ValueError:                      # any string is a seed: use a stable hash of it
+            import zlib
+            seed = zlib.crc32(raw.encode())
     t0 = time.time()
     try:
         mod = load_module(prop)
